@@ -41,7 +41,7 @@ MANIFEST = dict(
           "sum_slice_spec / product_slice_spec / sum_spec (value and exact guard conditions), dot bilinear/symmetric over a ring, linspace_ends "
           "over a field and strict monotonicity over R, powspace_spec over R (ends, monotone), and over R: non-negativity, homogeneity, triangle inequality of "
           "norm_1/norm_inf/norm_2 (Cauchy-Schwarz) and norm_inf <= norm_2 <= norm_1; over IEEE binary64 (Flocq): dot_exact_float and "
-          "sum_slice_exact_float (integer-valued f64 data below 2^53: the float instance returns exactly the integer value of the definition). Tie: the same definitions run by vm_compute "
+          "sum_slice_exact_float, elementwise_exact_float, norm_1_exact_float (integer-valued f64 data below 2^53: the float instance returns exactly the integer value of the definition). Tie: the same definitions run by vm_compute "
           "against the implementation (Rat vs Qc exactly; f64/Complex bit-compared, libm-dependent norm_p/powspace by tolerance) "
           "on every length 0..64, every index range of the slice reductions for lengths <= 8 and random histories; a plain python "
           "list model and mpmath norms search for failing inputs."),
@@ -310,7 +310,7 @@ def generate(rng, tier):
         cases.append(powspace_case(a, b, n + 1, g.choice([1.0, 2.0, 0.5]), "range-extreme"))
     # (c) random edit histories
     g = rng.fork("hist")
-    nh = 600 if thorough else 150
+    nh = 1200 if thorough else 150
     for h in range(nh):
         elt = 'rat' if h % 4 != 3 else ('f64' if h % 8 == 3 else 'cplx')
         n0 = g.range(0, 6)
